@@ -44,6 +44,12 @@ pub struct Case {
     pub flags: (bool, u8, Option<u64>),
     pub use_flag: bool,
     pub links: bool,
+    /// name of the source directory (index into GNAMES): entries named like the source itself occur
+    #[serde(default)]
+    pub src_name: u8,
+    /// optional second source directory with its own tree and .gitignore
+    #[serde(default)]
+    pub second: Option<(Vec<TEnt>, Vec<Pat>)>,
 }
 
 pub fn strategy() -> BoxedStrategy<Case> {
@@ -56,8 +62,16 @@ pub fn strategy() -> BoxedStrategy<Case> {
         prop::bool::weighted(0.1),
     )
         .prop_map(|(kind, name, name2, negate, absent)| Pat { kind, name, name2, negate, absent });
-    (prop::collection::vec(tent, 3..22), prop::collection::vec(pat, 1..9), common_flags(), prop::bool::weighted(0.85), prop::bool::weighted(0.6))
-        .prop_map(|(tree, pats, flags, use_flag, links)| Case { tree, pats, flags, use_flag, links })
+    (
+        prop::collection::vec(tent.clone(), 3..22),
+        prop::collection::vec(pat.clone(), 1..9),
+        common_flags(),
+        prop::bool::weighted(0.85),
+        prop::bool::weighted(0.6),
+        0..GNAMES.len() as u8,
+        prop::option::weighted(0.3, (prop::collection::vec(tent, 2..12), prop::collection::vec(pat, 0..6))),
+    )
+        .prop_map(|(tree, pats, flags, use_flag, links, src_name, second)| Case { tree, pats, flags, use_flag, links, src_name, second })
         .boxed()
 }
 
@@ -94,13 +108,14 @@ fn matches_gitignore_file(pt: &str) -> bool {
     matches!(b, "?" | ".*" | "*e" | ".?") || b == "**/.gitignore" || b == ".gitignore" || b.starts_with(".g")
 }
 
-pub fn build(c: &Case) -> (Vec<Ent>, String) {
-    let mut ents = vec![Ent::dir(b"src"), Ent::dir(b"d"), Ent::dir(b"by"), Ent::file(b"by/keep", Content::data(3, 1)), Ent::dir(b"by/sub"), Ent::file(b"by/sub/deep", Content::data(4, 2))];
-    let mut dirs: Vec<(Vec<u8>, usize)> = vec![(b"src".to_vec(), 0)];
+/// entries of one source directory `dir` (relative to the sandbox root) and the text of its .gitignore
+pub fn build_src(dir: &[u8], tree: &[TEnt], pats: &[Pat], links: bool) -> (Vec<Ent>, String) {
+    let mut ents = vec![Ent::dir(dir)];
+    let mut dirs: Vec<(Vec<u8>, usize)> = vec![(dir.to_vec(), 0)];
     let mut used: BTreeSet<Vec<u8>> = BTreeSet::new();
-    for (i, t) in c.tree.iter().enumerate() {
+    for (i, t) in tree.iter().enumerate() {
         let (dp, depth) = dirs[monotonic_index(t.parent, dirs.len())].clone();
-        let (dp, depth) = if depth >= 3 { (b"src".to_vec(), 0) } else { (dp, depth) };
+        let (dp, depth) = if depth >= 3 { (dir.to_vec(), 0) } else { (dp, depth) };
         let name = GNAMES[t.name as usize % GNAMES.len()].as_bytes().to_vec();
         let path = join(&dp, &name);
         if used.contains(&path) {
@@ -108,7 +123,7 @@ pub fn build(c: &Case) -> (Vec<Ent>, String) {
         }
         used.insert(path.clone());
         let up = "../".repeat(depth + 1);
-        let kind = if c.links { t.kind % 5 } else { [0, 1, 0, 1, 4][t.kind as usize % 5] };
+        let kind = if links { t.kind % 5 } else { [0, 1, 0, 1, 4][t.kind as usize % 5] };
         match kind {
             0 => ents.push(Ent::file(&path, Content::data(10 + i as u64, i as u8))),
             1 => {
@@ -121,7 +136,7 @@ pub fn build(c: &Case) -> (Vec<Ent>, String) {
         }
     }
     let mut text = String::new();
-    for p in &c.pats {
+    for p in pats {
         let t = pattern_text(p);
         if matches_gitignore_file(&t) {
             continue;
@@ -129,10 +144,24 @@ pub fn build(c: &Case) -> (Vec<Ent>, String) {
         text.push_str(&t);
         text.push('\n');
     }
-    let mut gi = Ent::file(b"src/.gitignore", Content::default());
-    gi.kind = Kind::File(Content::default());
-    ents.push(gi);
     (ents, text)
+}
+
+/// (source directory name, entries, .gitignore text) per source; plus the common entries
+pub fn build(c: &Case) -> (Vec<Ent>, Vec<(Vec<u8>, String)>) {
+    let mut ents = vec![Ent::dir(b"d"), Ent::dir(b"by"), Ent::file(b"by/keep", Content::data(3, 1)), Ent::dir(b"by/sub"), Ent::file(b"by/sub/deep", Content::data(4, 2))];
+    let n1 = GNAMES[c.src_name as usize % GNAMES.len()].as_bytes().to_vec();
+    let mut srcs = vec![];
+    let (e1, t1) = build_src(&n1, &c.tree, &c.pats, c.links);
+    ents.extend(e1);
+    srcs.push((n1, t1));
+    if let Some((tree2, pats2)) = &c.second {
+        let n2 = GNAMES[(c.src_name as usize + 5) % GNAMES.len()].as_bytes().to_vec();
+        let (e2, t2) = build_src(&n2, tree2, pats2, c.links);
+        ents.extend(e2);
+        srcs.push((n2, t2));
+    }
+    (ents, srcs)
 }
 
 fn git_cmd(gitdir: &std::path::Path, worktree: &std::path::Path) -> Command {
@@ -200,68 +229,81 @@ pub fn judge(c: &Case, rec: &mut Rec) -> Verdict {
         Ok(s) => s,
         Err(e) => return Verdict::Inconclusive(format!("sandbox: {e}")),
     };
-    let (ents, gi_text) = build(c);
+    let (ents, srcs) = build(c);
     if let Err(e) = materialise(&sb.root, &ents) {
         return Verdict::Inconclusive(format!("materialise: {e}"));
     }
-    if write_file(&sb.abs(b"src/.gitignore"), gi_text.as_bytes()).is_err() {
-        return Verdict::Inconclusive("write .gitignore".into());
+    for (dir, text) in &srcs {
+        // a source without patterns has no .gitignore at all (the matcher must cope with that too)
+        if !text.is_empty() && write_file(&sb.abs(&join(dir, b".gitignore")), text.as_bytes()).is_err() {
+            return Verdict::Inconclusive("write .gitignore".into());
+        }
     }
     let pre = match snapshot(&sb.root) {
         Ok(s) => s,
         Err(e) => return Verdict::Inconclusive(format!("snapshot: {e}")),
     };
-    // entries below src (relative), parents before children
-    let rels: Vec<Vec<u8>> = pre.keys().filter(|p| p.starts_with(b"src/")).map(|p| p[4..].to_vec()).collect();
-    // ---- git oracle
     let gitdir = sb.out.join("oracle.git");
     let init = Command::new("git").env_clear().env("PATH", "/usr/bin:/bin").env("HOME", "/nonexistent").env("GIT_CONFIG_NOSYSTEM", "1").args(["init", "--bare", "-q"]).arg(&gitdir).output();
     if !init.map(|o| o.status.success()).unwrap_or(false) {
         return Verdict::Inconclusive("git init failed".into());
     }
-    let src_abs = sb.abs(b"src");
-    let verdicts = match git_ignored(&gitdir, &src_abs, &rels) {
-        Ok(v) => v,
-        Err(e) => {
-            rec.count("git_oracle_errors", 1);
-            return Verdict::Inconclusive(e);
-        }
-    };
-    // excluded iff the entry or an ancestor is ignored
+    // ---- git oracle, per source directory (each is its own work tree with its own root .gitignore)
+    let mut all_rels: Vec<Vec<u8>> = vec![]; // relative to the destination: <srcdir>/<rel>
     let mut excluded: BTreeSet<Vec<u8>> = BTreeSet::new();
-    for r in &rels {
-        let mut p = r.clone();
-        let mut ex = false;
-        loop {
-            if verdicts.get(&p).copied().unwrap_or(false) {
-                ex = true;
-                break;
+    for (dir, _) in &srcs {
+        let mut pfx = dir.clone();
+        pfx.push(b'/');
+        let rels: Vec<Vec<u8>> = pre.keys().filter(|p| p.starts_with(&pfx)).map(|p| p[pfx.len()..].to_vec()).collect();
+        let src_abs = sb.abs(dir);
+        let verdicts = match git_ignored(&gitdir, &src_abs, &rels) {
+            Ok(v) => v,
+            Err(e) => {
+                rec.count("git_oracle_errors", 1);
+                return Verdict::Inconclusive(e);
             }
-            let par = parent(&p).to_vec();
-            if par.is_empty() {
-                break;
-            }
-            p = par;
-        }
-        if ex {
-            excluded.insert(r.clone());
-        }
-    }
-    // cross-check git against itself on files and links
-    match git_untracked_unignored(&gitdir, &src_abs) {
-        Ok(listed) => {
-            for r in &rels {
-                let m = &pre[&join(b"src", r)];
-                if m.kind == K::D {
-                    continue;
+        };
+        let mut ex_here: BTreeSet<Vec<u8>> = BTreeSet::new();
+        for r in &rels {
+            let mut p = r.clone();
+            let mut ex = false;
+            loop {
+                if verdicts.get(&p).copied().unwrap_or(false) {
+                    ex = true;
+                    break;
                 }
-                if listed.contains(r) == excluded.contains(r) {
-                    rec.count("git_disagrees_with_itself_dropped", 1);
-                    return Verdict::Pass;
+                let par = parent(&p).to_vec();
+                if par.is_empty() {
+                    break;
                 }
+                p = par;
+            }
+            if ex {
+                ex_here.insert(r.clone());
             }
         }
-        Err(e) => return Verdict::Inconclusive(e),
+        match git_untracked_unignored(&gitdir, &src_abs) {
+            Ok(listed) => {
+                for r in &rels {
+                    let m = &pre[&join(dir, r)];
+                    if m.kind == K::D {
+                        continue;
+                    }
+                    if listed.contains(r) == ex_here.contains(r) {
+                        rec.count("git_disagrees_with_itself_dropped", 1);
+                        return Verdict::Pass;
+                    }
+                }
+            }
+            Err(e) => return Verdict::Inconclusive(e),
+        }
+        for r in rels {
+            let full = join(dir, &r);
+            if ex_here.contains(&r) {
+                excluded.insert(full.clone());
+            }
+            all_rels.push(full);
+        }
     }
     // ---- run xcp
     let s = |x: &str| x.as_bytes().to_vec();
@@ -269,26 +311,36 @@ pub fn judge(c: &Case, rec: &mut Rec) -> Verdict {
     if c.use_flag {
         args.push(s("--gitignore"));
     }
-    args.extend([s("-r"), s("src"), s("d")]);
+    args.push(s("-r"));
+    for (dir, _) in &srcs {
+        args.push(dir.clone());
+    }
+    args.push(s("d"));
     let out = run_plain(&RunSpec::xcp(args.clone(), &sb.root, &sb.out));
     rec.eval(1);
     if out.timed_out {
         return Verdict::Inconclusive("watchdog".into());
     }
     let argv_s: Vec<String> = args.iter().map(|a| esc(a)).collect();
-    let feats: BTreeSet<&str> = gi_text
+    let all_text: String = srcs.iter().map(|(_, t)| t.clone()).collect::<Vec<_>>().join("");
+    let feats: BTreeSet<&str> = all_text
         .lines()
         .map(|l| {
             let b = l.trim_start_matches('!');
             if l.starts_with('#') { "comment" } else if l.is_empty() { "blank" } else if b.starts_with("**/") { "**/" } else if b.ends_with("/**") { "/**" } else if b.ends_with('/') { "dir-only" } else if b.starts_with('/') { "anchored" } else if b.contains('/') { "path" } else if b.contains('*') { "star" } else if b.contains('?') { "qmark" } else { "literal" }
         })
         .collect();
-    let has_neg = gi_text.lines().any(|l| l.starts_with('!'));
+    let has_neg = all_text.lines().any(|l| l.starts_with('!'));
     let driver = if c.flags.0 { "parblock" } else { "parfile" };
-    let key = format!("{}|flag={}|neg={}|links={}|{}|exit={}", driver, c.use_flag, has_neg, c.links, feats.iter().cloned().collect::<Vec<_>>().join(","), if out.ok() { "0" } else { "!0" });
+    // does an entry named like its own source directory occur (root-stripping corner)?
+    let self_named = srcs.iter().any(|(dir, _)| all_rels.iter().any(|r| r.starts_with(&join(dir, dir)) ));
+    let key = format!("{}|flag={}|neg={}|links={}|srcs={}|{}|exit={}", driver, c.use_flag, has_neg, c.links, srcs.len(), feats.iter().cloned().collect::<Vec<_>>().join(","), if out.ok() { "0" } else { "!0" });
     let new = rec.class(key);
     for f in &feats {
         rec.class(format!("feature|{}", f));
+    }
+    if self_named {
+        rec.class("entry-named-like-its-source");
     }
     if !out.ok() {
         rec.count("exit_nonzero", 1);
@@ -298,27 +350,28 @@ pub fn judge(c: &Case, rec: &mut Rec) -> Verdict {
         Ok(s) => s,
         Err(e) => return Verdict::Inconclusive(format!("snapshot: {e}")),
     };
-    let copied: BTreeSet<Vec<u8>> = post.keys().filter(|p| p.starts_with(b"d/src/")).map(|p| p[6..].to_vec()).collect();
-    let expected: BTreeSet<Vec<u8>> = if c.use_flag { rels.iter().filter(|r| !excluded.contains(*r)).cloned().collect() } else { rels.iter().cloned().collect() };
-    if !excluded.is_empty() && excluded.len() < rels.len() && c.use_flag {
+    let srcdirs: BTreeSet<Vec<u8>> = srcs.iter().map(|(d, _)| join(b"d", d)).collect();
+    let copied: BTreeSet<Vec<u8>> = post.keys().filter(|p| p.starts_with(b"d/") && !srcdirs.contains(*p)).map(|p| p[2..].to_vec()).collect();
+    let expected: BTreeSet<Vec<u8>> = if c.use_flag { all_rels.iter().filter(|r| !excluded.contains(*r)).cloned().collect() } else { all_rels.iter().cloned().collect() };
+    if !excluded.is_empty() && excluded.len() < all_rels.len() && c.use_flag {
         rec.nontrivial(case_hash(c));
     }
+    let gi_json: Vec<Value> = srcs.iter().map(|(d, t)| json!({"source": esc(d), "gitignore": t.lines().collect::<Vec<_>>()})).collect();
     if new {
-        rec.sample(json!({"argv": argv_s, "gitignore": gi_text.lines().collect::<Vec<_>>(), "entries": rels.len(), "excluded_by_git": excluded.iter().take(8).map(|p| esc(p)).collect::<Vec<_>>(), "copied": copied.len()}));
+        rec.sample(json!({"argv": argv_s, "sources": gi_json, "entries": all_rels.len(), "excluded_by_git": excluded.iter().take(8).map(|p| esc(p)).collect::<Vec<_>>(), "copied": copied.len()}));
     }
     if copied == expected {
         return Verdict::Pass;
     }
     let wrongly_copied: Vec<String> = copied.difference(&expected).take(5).map(|p| esc(p)).collect();
     let wrongly_skipped: Vec<String> = expected.difference(&copied).take(5).map(|p| esc(p)).collect();
-    // signature: is a symlink to a directory involved in a dir-only pattern?
     let first = expected.symmetric_difference(&copied).next().cloned().unwrap_or_default();
-    let fm = pre.get(&join(b"src", &first));
+    let fm = pre.get(&first);
     let link_dir = fm.map(|m| m.kind == K::L).unwrap_or(false) && feats.contains("dir-only");
     Verdict::faild(
         format!("C17|{}|{}{}", if c.use_flag { "with-flag" } else { "without-flag" }, if !wrongly_copied.is_empty() { "excluded-entry-copied" } else { "entry-wrongly-skipped" }, if link_dir { "|symlink-vs-dir-only-pattern" } else { "" }),
         format!("copied set differs from git's verdict: wrongly copied {:?}, wrongly skipped {:?}", wrongly_copied, wrongly_skipped),
-        json!({"argv": argv_s, "gitignore": gi_text.lines().collect::<Vec<_>>(), "tree": rels.iter().map(|r| format!("{} {:?}", esc(r), pre[&join(b"src", r)].kind)).collect::<Vec<_>>()}),
+        json!({"argv": argv_s, "sources": gi_json, "tree": all_rels.iter().map(|r| format!("{} {:?}", esc(r), pre[r].kind)).collect::<Vec<_>>()}),
     )
 }
 
@@ -355,6 +408,6 @@ impl Check for C17 {
         }
     }
     fn required_classes(&self, _tier: Tier) -> Vec<String> {
-        ["feature|literal", "feature|star", "feature|qmark", "feature|**/", "feature|/**", "feature|dir-only", "feature|anchored", "feature|path", "neg=true", "flag=false", "links=true"].iter().map(|s| s.to_string()).collect()
+        ["feature|literal", "feature|star", "feature|qmark", "feature|**/", "feature|/**", "feature|dir-only", "feature|anchored", "feature|path", "neg=true", "flag=false", "links=true", "srcs=2", "entry-named-like-its-source"].iter().map(|s| s.to_string()).collect()
     }
 }
